@@ -1046,6 +1046,27 @@ def examine(ctx, h, res, model, label, stats, report=True):
     return verdicts
 
 
+def directed_search(ctx, h, i, r, stats):
+    """After a model/implementation disagreement that the specification oracle accepts (equal
+    contents, invariants hold, only the shape differs): explore the implementation from the
+    disagreeing state, exhaustively over the keys present plus the gaps between them, to depth 3.
+    Returns (ops, index, msg) of a property-level failure or None."""
+    t = h[min(i, len(h) - 1)].split(" ")
+    kind = t[0][0]
+    if kind not in ("s", "m") or len(t) < 2 or not t[1].startswith(kind):
+        return None
+    lines = r["wasm"]["lines"]
+    trees = [x for x in (parse_dump(lines[i]) or []) if isinstance(x, tuple)] if i < len(lines) else []
+    ks = sorted({p[0] for tr in trees for p in inorder(tr, kind == "m")})
+    if not ks:
+        return None
+    ks = ks[:6]
+    keys = sorted(set(ks) | {k + 1 for k in ks} | {ks[0] - 1})[:12]
+    res = scope_search(ctx, kind, keys, 3, stats, prefix=h[:i + 1], base=t[1], max_states=400)
+    stats["directed_search_states"] = stats.get("directed_search_states", 0) + res["states"]
+    return res["violation"]
+
+
 def shrink(ctx, h, want_msg_kind):
     """ddmin over the op list; keeps a failure that is not attributable to a known finding."""
     def fails(cand):
@@ -1058,6 +1079,64 @@ def shrink(ctx, h, want_msg_kind):
         return common.ddmin(h, fails, max_tests=60)
     except Exception:
         return h
+
+
+def scope_search(ctx, kind, keys, depth, stats, prefix=None, base=None, max_states=900):
+    """Bounded-exhaustive small-scope exploration of the IMPLEMENTATION: breadth-first over the tree
+    shapes the compiled std code itself reaches (deduplicated by the dumped shape) by insert / remove
+    of every key of `keys`, to `depth` operations after `prefix`; every state is additionally hit
+    with every split and every prefix/suffix filter.  Each line goes through model, wasm, TS and the
+    specification oracle.  Returns {"violation": (ops, index, msg) | None, "disagreement": ... | None,
+    "states": n, "ops": n}.  Faults in rebalancing manifest on short but shape-specific histories
+    (remove after remove); exhaustive small scope reaches them, sampling does not."""
+    K = kind
+    base = base or f"{K}0"
+    regs = [f"{K}{i}" for i in range(REGS) if f"{K}{i}" != base]
+    T, U = regs[0], regs[1]
+    if K == "s":
+        ins = lambda d, k: f"sins {d} {base} {k}"
+        rem = lambda d, k: f"srem {d} {base} {k}"
+        extra = [f"sspl {T} {U} {base} {k}" for k in [min(keys) - 1] + list(keys)] + \
+                [f"sfil {T} {base} lt {k}" for k in keys] + [f"sfil {T} {base} ge {k}" for k in keys]
+    else:
+        ins = lambda d, k: f"mins {d} {base} {k} {(k * 7 + 3) % 100}"
+        rem = lambda d, k: f"mrem {d} {base} {k}"
+        extra = [f"mspl {T} {U} {base} {k}" for k in [min(keys) - 1] + list(keys)] + \
+                [f"mfil {T} {base} klt {k}" for k in keys] + [f"mfil {T} {base} kge {k}" for k in keys]
+    expanding = [(ins, k) for k in keys] + [(rem, k) for k in keys]
+    res = {"violation": None, "disagreement": None, "states": 0, "ops": 0}
+    frontier = [list(prefix or [])]
+    seen = set()
+    for level in range(depth):
+        if not frontier:
+            break
+        hs = [path + [f(T, k) for f, k in expanding] + extra for path in frontier]
+        models = run_model(hs)
+        _, answers = run_impl(hs)
+        nxt = []
+        for path, h, r, m in zip(frontier, hs, answers, models):
+            res["states"] += 1
+            vs = examine(ctx, h, r, m, "small-scope", stats)
+            for fid, i, msg in vs:
+                if fid is not None:
+                    continue
+                tgt = "disagreement" if msg.startswith("MODEL-DISAGREEMENT") else "violation"
+                if res[tgt] is None:
+                    keep = (path + [h[i]]) if i >= len(path) else h[:i + 1]
+                    res[tgt] = (keep, len(keep) - 1, msg)
+            if r["compile"] != "ok":
+                continue
+            lines = r["wasm"]["lines"]
+            res["ops"] += min(len(lines), len(h))
+            for j, (f, k) in enumerate(expanding):
+                idx = len(path) + j
+                if idx < len(lines) and lines[idx] not in seen and len(seen) < max_states:
+                    seen.add(lines[idx])
+                    nxt.append(path + [f(base, k)])
+        if res["violation"] is not None:
+            break
+        frontier = nxt
+    return res
 
 
 PROBES = {}   # no open finding left; witnesses of fixed findings are regression inputs in corpus/C18
@@ -1168,6 +1247,22 @@ def run(ctx):
             fid, i, msg = use_vs[0]
             impl_lines = canon_impl(use_h, use_r["wasm"]) if use_r["compile"] == "ok" else [str(use_r)[:500]]
             prop_level = not msg.startswith("MODEL-DISAGREEMENT")
+            if not prop_level and use_r["compile"] == "ok":
+                # the tie broke on a tree SHAPE only: property-directed search from the disagreeing state
+                found = directed_search(ctx, use_h, i, use_r, stats)
+                if found is None:
+                    # ... and the bounded-exhaustive small scope of that collection kind from the empty tree
+                    k0 = use_h[min(i, len(use_h) - 1)][0]
+                    if k0 in ("s", "m"):
+                        found = scope_search(ctx, k0, list(range(1, 7)), 7, stats)["violation"]
+                if found is not None:
+                    use_h, i, msg = found
+                    use_m = run_model([use_h])[0]
+                    _, sa2 = run_impl([use_h])
+                    use_r = sa2[0]
+                    impl_lines = canon_impl(use_h, use_r["wasm"]) if use_r["compile"] == "ok" else [str(use_r)[:500]]
+                    use_vs = [(None, i, msg)]
+                    prop_level = True
             payload = {"protocol": "stdops", "label": f"generated seed={ctx.seed} {fam}/{mode}", "ops": use_h, "at": i,
                        "impl": impl_lines, "model": use_m, "oracle": [f"op#{a}: {b}" for _, a, b in use_vs[:5]]}
             if prop_level:
@@ -1189,7 +1284,34 @@ def run(ctx):
                     nontrivial += 1
                     if len(samples) < 3:
                         samples.append({"ops": h[:25], "impl_answers": r["wasm"]["lines"][:25]})
+    # bounded-exhaustive small scope over the implementation's own reachable shapes (every run)
+    scope = {}
+    for kind in ("s", "m"):
+        if ctx.violations:
+            break
+        sr = scope_search(ctx, kind, list(range(1, 7)), 7, stats)
+        scope[kind] = {"states": sr["states"], "ops": sr["ops"]}
+        evals += sr["ops"]
+        hit = sr["violation"] or sr["disagreement"]
+        if hit is not None:
+            ops_h, at, msg = hit
+            mm = run_model([ops_h])[0]
+            _, aa = run_impl([ops_h])
+            payload = {"protocol": "stdops", "label": f"small-scope exhaustive ({'Set' if kind == 's' else 'Map'}, keys 1..6, depth 7)",
+                       "ops": ops_h, "at": at, "model": mm,
+                       "impl": canon_impl(ops_h, aa[0]["wasm"]) if aa[0]["compile"] == "ok" else [str(aa[0])[:500]]}
+            if sr["violation"] is not None:
+                ctx.violation("std collections break C18 on this history: " + msg, payload)
+            else:
+                found = directed_search(ctx, ops_h, at, aa[0], stats) if aa[0]["compile"] == "ok" else None
+                if found is not None:
+                    payload["ops"], payload["at"] = found[0], found[1]
+                    ctx.violation("std collections break C18 on this history: " + found[2], payload)
+                else:
+                    payload["broken"] = "correspondence `stdops` (Model/Std*.lean vs std/*.sam compiled by the real compiler)"
+                    ctx.violation("model/implementation disagreement on protocol stdops (small-scope sweep); no property-level failure within the explored scope: " + msg, payload, no_input=True)
     ctx.cov.update({
+        "small_scope": scope,
         "evaluations": evals, "distinct_nontrivial": nontrivial,
         "rule": "one evaluation = one collection operation executed by the compiled program (wasm and TS) and compared with model and specification; non-trivial = distinct generated history of >= 20 executed ops in which a tree of height >= 4 (rebalancing, join/concat paths) occurred, or a list history",
         "samples": samples, "traces_validated_against_impl": len(hist) + len(fixed),
